@@ -581,7 +581,12 @@ fn part_g(n: usize, max_edges: usize, depth: usize) -> GOut {
                 let mut v: Vec<R> = vec![];
                 for op in &alpha {
                     let (mut st, r) = g_replay(n, max_edges, hist);
-                    assert!(r.is_ok(), "frontier history must replay");
+                    if let Err((sig, msg)) = r {
+                        // a history that passed when it was first run fails when it is replayed: the verdict
+                        // depends on something outside the history (map iteration order); it is a verdict all the same
+                        v.push((hist.clone(), String::new(), Some((sig, format!("{msg} (only when the history is replayed; it passed when first run)"))), 0, 0, false));
+                        break;
+                    }
                     let before = st.e.len();
                     let r = g_apply(&mut st, op);
                     let mut h2 = hist.clone();
@@ -1042,6 +1047,10 @@ fn part_s(depth: usize, graph_calls: bool) -> SeqOut {
                 let mut v: Vec<R> = vec![];
                 for op in &alpha {
                     let (mut st, r) = s_replay(hist);
+                    if let Err((sig, msg)) = r {
+                        v.push((hist.clone(), String::new(), Some((sig, format!("{msg} (only when the history is replayed; it passed when first run)"))), [0; 4]));
+                        break;
+                    }
                     assert!(matches!(r, Ok(true)), "frontier history must replay");
                     let before = [st.grants, st.refusals, st.expiries];
                     st.stale = 0;
